@@ -141,14 +141,14 @@ fn c09_hypotheses(f: &Flow) -> bool {
     if order != (0..f.parties.len() - 1).collect::<Vec<_>>() { return false; }
     let party_of = |i: usize| f.parties.iter().position(|p| p.contains(&i));
     // assets a party holds: its inputs and the issuances on them
-    let holds = |k: usize, a: &AssetId| f.parties[k].iter().any(|i| { let s = &f.ins[*i]; s.sec.asset == *a || s.iss.as_ref().map(|x| { let (ia, it) = txin_for(*i, &s.iss).issuance_ids(); (x.amount.is_some() && ia == *a) || (x.keys.is_some() && it == *a) }).unwrap_or(false) });
+    let holds = |k: usize, a: &AssetId| f.parties[k].iter().any(|i| { let s = &f.ins[*i]; s.sec.asset == *a || s.iss.as_ref().map(|x| { let (ia, it) = own_issuance_ids(*i, x); (x.amount.is_some() && ia == *a) || (x.keys.is_some() && it == *a) }).unwrap_or(false) });
     let mut has_out = vec![false; f.parties.len()];
     let mut bal: BTreeMap<AssetId, i128> = BTreeMap::new();
     for (i, s) in f.ins.iter().enumerate() {
         if s.sec.value == 0 { return false; }
         *bal.entry(s.sec.asset).or_default() += s.sec.value as i128;
         if let Some(x) = &s.iss {
-            let (a, t) = txin_for(i, &s.iss).issuance_ids();
+            let (a, t) = own_issuance_ids(i, x);
             if x.amount == Some(0) || x.keys == Some(0) { return false; }
             if let Some(v) = x.amount { *bal.entry(a).or_default() += v as i128; }
             if let Some(v) = x.keys { *bal.entry(t).or_default() += v as i128; }
@@ -239,7 +239,7 @@ fn gen_flow(rng: &mut ChaCha20Rng, sh: &Shape, nparties: usize, tags: &mut Vec<S
     let n = base.ins.len();
     let group: Vec<usize> = (0..n).map(|i| if i < nparties { i } else { rng.gen_range(0..nparties) }).map(|g| g.min(nparties - 1)).collect();
     // candidate owners of an output: inputs holding the asset (directly or by issuance)
-    let holders = |a: &AssetId| -> Vec<usize> { (0..n).filter(|i| { let s = &base.ins[*i]; s.sec.asset == *a || s.iss.as_ref().map(|x| { let (ia, it) = txin_for(*i, &s.iss).issuance_ids(); (x.amount.is_some() && ia == *a) || (x.keys.is_some() && it == *a) }).unwrap_or(false) }).collect() };
+    let holders = |a: &AssetId| -> Vec<usize> { (0..n).filter(|i| { let s = &base.ins[*i]; s.sec.asset == *a || s.iss.as_ref().map(|x| { let (ia, it) = own_issuance_ids(*i, x); (x.amount.is_some() && ia == *a) || (x.keys.is_some() && it == *a) }).unwrap_or(false) }).collect() };
     let mut outs: Vec<POut> = base.outs.iter().map(|o| {
         let h = holders(&o.asset);
         let mark = !o.script.is_empty() && !h.is_empty() && rng.gen_range(0..5) != 0;
